@@ -18,6 +18,10 @@ pub enum Policy {
     Middle,
     /// first element for even lengths, last element for odd lengths (alternating adversary)
     ParityEnds,
+    /// second element (index 1; 0 for n = 1)
+    Second,
+    /// second-to-last element (index n - 2; 0 for n = 1)
+    SecondLast,
 }
 
 impl Policy {
@@ -33,11 +37,13 @@ impl Policy {
                     n - 1
                 }
             }
+            Policy::Second => 1.min(n - 1),
+            Policy::SecondLast => n.saturating_sub(2),
         }
     }
     pub const ALL: [Policy; 3] = [Policy::First, Policy::Last, Policy::Middle];
     /// the policies used on long lanes (worst cases for quickselect: depth ~ n)
-    pub const ADVERSARIAL: [Policy; 4] = [Policy::First, Policy::Last, Policy::ParityEnds, Policy::Middle];
+    pub const ADVERSARIAL: [Policy; 6] = [Policy::First, Policy::Last, Policy::ParityEnds, Policy::Middle, Policy::Second, Policy::SecondLast];
 }
 
 #[derive(Clone, Debug, PartialEq)]
@@ -46,6 +52,9 @@ pub enum PivotMode {
     All,
     /// default answer given by `policy`, at most `bound` choice points deviate
     Bounded { policy: Policy, bound: u32 },
+    /// like Bounded, but only the first `depth` choice points of an execution may deviate
+    /// (used on long lanes, where a deviation at every one of ~n^2 points would be too many)
+    BoundedShallow { policy: Policy, bound: u32, depth: usize },
     /// exactly this sequence of pivot values (replay); beyond its end: middle
     Forced(Vec<usize>),
 }
@@ -79,7 +88,7 @@ thread_local! {
 fn opt_to_value(mode: &PivotMode, n: usize, opt: u32) -> usize {
     match mode {
         PivotMode::All => opt as usize,
-        PivotMode::Bounded { policy, .. } => {
+        PivotMode::Bounded { policy, .. } | PivotMode::BoundedShallow { policy, .. } => {
             let d = policy.pick(n);
             if opt == 0 {
                 d
@@ -171,9 +180,10 @@ pub fn current_pivots() -> Vec<usize> {
 /// Computes the next prefix in depth-first order, or None when the tree is exhausted.
 /// Returns (prefix, index of the choice point that changed).
 pub fn next_prefix(mode: &PivotMode, rec: &[Point]) -> Option<(Vec<u32>, usize)> {
-    let bound = match mode {
-        PivotMode::All => None,
-        PivotMode::Bounded { bound, .. } => Some(*bound),
+    let (bound, max_i) = match mode {
+        PivotMode::All => (None, usize::MAX),
+        PivotMode::Bounded { bound, .. } => (Some(*bound), usize::MAX),
+        PivotMode::BoundedShallow { bound, depth, .. } => (Some(*bound), *depth),
         PivotMode::Forced(_) => return None,
     };
     // deviations before each point
@@ -185,7 +195,7 @@ pub fn next_prefix(mode: &PivotMode, rec: &[Point]) -> Option<(Vec<u32>, usize)>
             d += 1;
         }
     }
-    for i in (0..rec.len()).rev() {
+    for i in (0..rec.len().min(max_i)).rev() {
         if rec[i].opt + 1 < rec[i].arity {
             let ok = match bound {
                 None => true,
